@@ -429,9 +429,106 @@ func finish(s *st) {
 	}
 }
 
+// ---- listeners that speak TLS: connections in and around the handshake -----------------------------------------------
+
+// (an idle connection that has completed its handshake keeps Shutdown waiting until its deadline, as on a plain
+// listener - that is the main scenario's business)
+var tlsPhases = []string{"no-byte", "partial-hello", "closed-before-hello", "closed-mid-hello", "reset-mid-hello", "handshake-done-then-closed"}
+
+// tlsListenerScenario: on a TLS listener (handshake timeout 5 s) 1-3 clients are at or around the handshake -
+// silent, half-way through their hello, gone (FIN or RST) before or in the middle of it, or through it and
+// gone. Then Shutdown(30 s) is called on the proxy. Handshakes that will never finish time out at 5 s and
+// everything else ends at once, so Shutdown must report success, the open-connection count must be zero and
+// every accepted socket closed - however the connection left the handshake.
+func tlsListenerScenario(x *explore.X, maxConns int) {
+	n := 1 + x.ChooseFree("connections-1", maxConns)
+	var ph []string
+	for i := 0; i < n; i++ {
+		ph = append(ph, tlsPhases[x.ChooseFree(fmt.Sprintf("phase%d", i), len(tlsPhases))])
+	}
+	opts := world.Options{TLSListener: true}
+	opts.Tweak = func(cfg *forwarder.HTTPProxyConfig, _ *forwarder.HTTPTransportConfig) {
+		cfg.TLSServerConfig.HandshakeTimeout = 5 * time.Second
+	}
+	w, err := world.Start(opts)
+	if err != nil {
+		x.Failf("harness/start", "%v", err)
+		return
+	}
+	hello := []byte{0x16, 0x03, 0x01, 0x02, 0x00, 0x01, 0x00, 0x01, 0xfc, 0x03, 0x03, 1, 2, 3}
+	var raws []*world.Peer
+	var closers []interface{ Close() }
+	for i := 0; i < n; i++ {
+		p, err := w.Client()
+		if err != nil {
+			x.Failf("harness/client", "%v", err)
+			return
+		}
+		raws = append(raws, p)
+		switch ph[i] {
+		case "partial-hello":
+			p.Send(hello)
+		case "closed-before-hello":
+			p.Close()
+		case "closed-mid-hello":
+			p.Send(hello)
+			p.Close()
+		case "reset-mid-hello":
+			p.Send(hello)
+			p.Abort()
+		case "handshake-done-then-closed":
+			tc := world.TLSClient(p, &tls.Config{InsecureSkipVerify: true})
+			if done, err := tc.Handshake(); !done || err != nil {
+				x.Failf("harness/handshake", "done=%v err=%v", done, err)
+				return
+			}
+			tc.Close()
+		}
+	}
+	mp := w.Proxy.VerifMartian()
+	ctx, cancel := context.WithTimeout(context.Background(), 30*time.Second)
+	defer cancel()
+	t0 := time.Now()
+	res := make(chan error, 1)
+	go func() { res <- mp.Shutdown(ctx) }()
+	world.Settle(31 * time.Second)
+	x.Check()
+	what := fmt.Sprintf("TLS listener, clients %v, Shutdown with a 30 s deadline", ph)
+	select {
+	case err := <-res:
+		if err != nil {
+			x.Failf("shutdown-does-not-finish/tls-listener", "%s: returned %v after %v; open-connection count %d, registered %d", what, err, time.Since(t0), mp.VerifOpenConns(), mp.VerifTracked())
+		}
+	default:
+		x.Failf("shutdown-does-not-finish/tls-listener", "%s: has not returned after 31 s", what)
+	}
+	if c := mp.VerifOpenConns(); c != 0 && !x.Failed() {
+		x.Failf("open-connection-count/tls-listener", "%s: open-connection count is %d after Shutdown", what, c)
+	}
+	for i, p := range raws {
+		st := p.C.Status()
+		if !(st.PeerClosed || st.Reset || st.Closed) && !x.Failed() {
+			x.Failf("socket-left-open/tls-listener", "%s: the socket of client %d (%s) is still open", what, i, ph[i])
+		}
+	}
+	x.Outcome(fmt.Sprint(len(ph)))
+	for _, c := range closers {
+		c.Close()
+	}
+	for _, p := range raws {
+		p.Close()
+	}
+	if err := w.Stop(); err != nil {
+		x.Failf("shutdown", "%v", err)
+	}
+	if l := world.Leaks(); l != "" {
+		x.Failf("goroutine-leak", "%s", l)
+	}
+}
+
 func TestC11(t *testing.T) {
 	s := explore.NewSuite(t, "C11", "model_checking",
-		"1-2 (quick) / 1-3 (thorough) client connections, each in one of 8 phases (idle before any byte, partial head, request at origin, reply head relayed and body pending, idle keep-alive, inside CONNECT tunnel, inside MITM idle, inside MITM with request at origin) [full product]; then shutdown, through Run's context and directly on the martian proxy (return value observable); then EVERY order of post-shutdown events (origin completes i, tunnel ends i, client i sends, client i aborts, new client connects, clock +600 ms, clock to idle timeout, clock past shutdown timeout) to depth 2 (quick) / 3 (thorough); states = quiescent event histories; invariants at every state: no request first sent after shutdown reaches an origin, in-flight exchanges are not cut before the deadline and complete in full with Connection: close and then the socket is closed, late connections get no byte, Shutdown returns nil only with all served connections closed and an error only at the deadline, after Run returns / after Close every accepted socket is closed and the open-connection counter is 0, no goroutine survives")
+		"1-2 (quick) / 1-3 (thorough) client connections, each in one of 8 phases (idle before any byte, partial head, request at origin, reply head relayed and body pending, idle keep-alive, inside CONNECT tunnel, inside MITM idle, inside MITM with request at origin) [full product]; then shutdown, through Run's context and directly on the martian proxy (return value observable); then EVERY order of post-shutdown events (origin completes i, tunnel ends i, client i sends, client i aborts, new client connects, clock +600 ms, clock to idle timeout, clock past shutdown timeout) to depth 2 (quick) / 3 (thorough); states = quiescent event histories; invariants at every state: no request first sent after shutdown reaches an origin, in-flight exchanges are not cut before the deadline and complete in full with Connection: close and then the socket is closed, late connections get no byte, Shutdown returns nil only with all served connections closed and an error only at the deadline, after Run returns / after Close every accepted socket is closed and the open-connection counter is 0, no goroutine survives; plus (tls-listener) 1-2 (quick) / 1-3 (thorough) clients on a TLS listener in one of 6 phases around the handshake (silent, partial hello, closed before / in the middle of the hello with FIN or RST, handshake done and then closed) [full product], then Shutdown with a 30 s deadline: it must succeed with count 0 and every socket closed")
 	s.Assume = []string{"virtual clock; sync.Mutex of proxy.go replaced by a durably-blocking mutex at build time (Shutdown holds connsMu across its timed wait)", "(registration-vs-shutdown) sync.Mutex / atomic.Int32 / sync.Once and the go statement of internal/martian/proxy.go are redirected at build time to a cooperative scheduler: all interleavings of 1 (quick) / 1-2 (thorough) handleLoop registrations, Shutdown and Close with at most 2 preemptions; the iteration order of the connection map in Close is an explored choice"}
 	for _, tier := range []string{"quick", "thorough"} {
 		mc := map[string]int{"quick": 2, "thorough": 2}[tier]
@@ -446,5 +543,7 @@ func TestC11(t *testing.T) {
 		Run: func(x *explore.X) { registrationScenario(t, x, 1) }})
 	s.Add(explore.Scenario{Name: "registration-vs-shutdown-thorough", Remote: true, Tiers: []string{"thorough"}, MaxDev: map[string]int{"thorough": 2},
 		Run: func(x *explore.X) { registrationScenario(t, x, 2) }})
+	s.Add(explore.Scenario{Name: "tls-listener-quick", Remote: true, Tiers: []string{"quick"}, Run: func(x *explore.X) { world.Run(t, x, func() { tlsListenerScenario(x, 2) }) }})
+	s.Add(explore.Scenario{Name: "tls-listener-thorough", Remote: true, Tiers: []string{"thorough"}, Run: func(x *explore.X) { world.Run(t, x, func() { tlsListenerScenario(x, 3) }) }})
 	s.Main()
 }
